@@ -295,7 +295,7 @@ func checkClean(before, after map[string]entry, targetIsDot bool) error {
 type replayPayload struct {
 	Gen    string `json:"gen"`
 	Tree   *Node  `json:"tree"`
-	Mode   string `json:"mode"` // plain | dot | missing
+	Mode   string `json:"mode"` // plain | dot | dotslash | missing
 }
 
 var scratch string
@@ -316,12 +316,15 @@ func runTree(n *Node, mode string) (class string, err error) {
 		os.MkdirAll(root, 0o755)
 	}
 	clean := func() error {
-		if mode == "dot" {
+		if mode == "dot" || mode == "dotslash" {
 			cwd, _ := os.Getwd()
 			if err := os.Chdir(target); err != nil {
 				return nil // target vanished in an earlier clean: nothing to do
 			}
 			defer os.Chdir(cwd)
+			if mode == "dotslash" {
+				return utils.CleanTargetDir("./")
+			}
 			return utils.CleanTargetDir(".")
 		}
 		return utils.CleanTargetDir(target)
@@ -333,7 +336,7 @@ func runTree(n *Node, mode string) (class string, err error) {
 	if err != nil {
 		report.Internal("snapshot: %v", err)
 	}
-	if err := checkClean(before, after, mode == "dot"); err != nil {
+	if err := checkClean(before, after, mode == "dot" || mode == "dotslash"); err != nil {
 		return "", fmt.Errorf("%v\n before: %s\n after:  %s", err, snapString(before), snapString(after))
 	}
 	if mode != "missing" {
@@ -441,7 +444,7 @@ func main() {
 			}
 			modes := []string{"plain"}
 			if i%97 == 0 || len(n.Dirs)+len(n.Files) <= 1 {
-				modes = append(modes, "dot") // the current directory as target, on a sub-family
+				modes = append(modes, "dot", "dotslash") // the current directory as target (spelled "." and "./"), on a sub-family
 			}
 			for _, mode := range modes {
 				class, err := runTree(n, mode)
